@@ -33,13 +33,7 @@ Theorem C03_query_roundtrip : forall l, wf_pairs l ->
   (forall k, gmap_get k (group_pairs l) = values_of k l) /\
   Permutation (gmap_flat (group_pairs l)) l /\
   NoDup (map fst (group_pairs l)).
-Proof.
-  intros l H. split; [|split; [|split]].
-  - unfold parse_query, do_parse_query. now rewrite query_roundtrip_pairs.
-  - intro k. apply group_pairs_lookup.
-  - apply group_pairs_flat.
-  - apply group_pairs_nodup.
-Qed.
+Proof. exact query_roundtrip_full. Qed.
 Print Assumptions C03_query_roundtrip.
 
 (* a literal %41 in a value is read back as %41 (decoding it again would give "A") *)
@@ -92,7 +86,7 @@ Theorem C03_header_visible : forall fold cookie_ord hs,
   forall k, dc_is_empty k = false ->
     cm_find_string fold (v_headers (add_headers fold cookie_ord txv_empty hs)) k =
     filter (fun e => bytes_eqb (fold (fst e)) (fold k)) (filter nonempty_key hs).
-Proof. intros. split; [apply headers_visible|intros; now apply headers_lookup]. Qed.
+Proof. exact header_visible_full. Qed.
 Print Assumptions C03_header_visible.
 
 (* a urlencoded body (Content-Type: application/x-www-form-urlencoded, body access on):
